@@ -42,6 +42,8 @@ func (th tokenHandler) ServeHTTP(w http.ResponseWriter, r *http.Request) {
 		time.Sleep(250 * time.Millisecond)
 	case strings.HasPrefix(tok, "hang"):
 		time.Sleep(time.Hour)
+	case strings.HasPrefix(tok, "stall"):
+		io.ReadAll(r.Body) // the client never sends all of the announced body
 	default:
 		time.Sleep(15 * time.Millisecond)
 	}
@@ -241,6 +243,13 @@ func runProcessScript(c procCase) (fails []h.Failure, obs observations) {
 	time.Sleep(150 * time.Millisecond)
 	notePipes()
 	client := &http.Client{Timeout: 6 * time.Second, Transport: &http.Transport{DisableKeepAlives: true}}
+	var stalledConns []net.Conn
+	stalled := false
+	defer func() {
+		for _, cn := range stalledConns {
+			cn.Close()
+		}
+	}()
 	type answer struct{ tok, body string; err error }
 	var allAnswers []answer
 	var ansMu sync.Mutex
@@ -263,6 +272,19 @@ func runProcessScript(c procCase) (fails []h.Failure, obs observations) {
 					allAnswers = append(allAnswers, a)
 					ansMu.Unlock()
 				}(tok)
+			}
+		case "stall":
+			// uploads whose head arrives completely but whose body never does: the connection
+			// stays open (until the script is over) with 10 of the 100 announced bytes sent
+			for _, tok := range st.Tokens {
+				conn, err := net.DialTimeout("tcp", fmt.Sprintf("127.0.0.1:%d", port), 3*time.Second)
+				if err != nil {
+					obs.notObserved["stalled upload connected"]++
+					continue
+				}
+				fmt.Fprintf(conn, "POST /x?t=%s HTTP/1.1\r\nHost: zn.test\r\nContent-Type: text/plain\r\nContent-Length: 100\r\n\r\n0123456789", tok)
+				stalledConns = append(stalledConns, conn)
+				stalled = true
 			}
 		case "kill":
 			obs.faults++
@@ -308,6 +330,12 @@ func runProcessScript(c procCase) (fails []h.Failure, obs observations) {
 	ansMu.Lock()
 	for _, a := range allAnswers {
 		if a.err != nil {
+			if stalled && strings.HasPrefix(a.tok, "after") {
+				// sent several seconds (many times --timeout) after uploads stalled on every
+				// worker: by then each of those workers must have been terminated and replaced
+				fail("stalled-workers-not-replaced", fmt.Sprintf("request %q, sent long after --timeout had passed for the stalled uploads, was not answered (%v): the workers holding the stalled uploads were not terminated and replaced", a.tok, a.err))
+				continue
+			}
 			if strings.HasPrefix(a.tok, "hang") || obs.faults > 0 {
 				continue // cut by the timeout / a killed worker: allowed
 			}
@@ -351,7 +379,7 @@ func runProcessScript(c procCase) (fails []h.Failure, obs observations) {
 	if obs.faults == 0 {
 		for pid, ivs := range per {
 			for _, x := range ivs {
-				if !strings.HasPrefix(x.tok, "hang") && x.end == 1<<62 {
+				if !strings.HasPrefix(x.tok, "hang") && !strings.HasPrefix(x.tok, "stall") && x.end == 1<<62 {
 					fail("request-cut-short", fmt.Sprintf("worker %s started request %q and never completed it although no fault was injected and the request needs far less than --timeout", pid, x.tok))
 				}
 			}
@@ -375,7 +403,7 @@ func runProcessScript(c procCase) (fails []h.Failure, obs observations) {
 	// a hung worker is terminated: its pid must be gone some time after the timeout
 	for pid, ivs := range per {
 		for _, x := range ivs {
-			if strings.HasPrefix(x.tok, "hang") {
+			if strings.HasPrefix(x.tok, "hang") || strings.HasPrefix(x.tok, "stall") {
 				p, _ := strconv.Atoi(pid)
 				gone := false
 				for i := 0; i < 150; i++ {
@@ -414,6 +442,23 @@ func TestProcessIdleBeyondTimeout(t *testing.T) {
 		}
 		key, _ := json.Marshal(c)
 		h.R.Case(t, "process", string(key), c, []string{"idle-beyond-timeout", fmt.Sprint("scenario-", i)}, true, fails)
+	}
+}
+
+// TestProcessStalledUploads - every worker receives an upload whose body stalls (a request that
+// outlives --timeout = 1 s); five seconds later fresh requests must be answered: the stalled
+// workers have been terminated and replaced
+func TestProcessStalledUploads(t *testing.T) {
+	for i, c := range []procCase{
+		{Init: 1, Max: 1, Steps: []step{{Kind: "stall", Tokens: []string{"stall1"}}, {Kind: "wait", Ms: 5000}, {Kind: "requests", Tokens: []string{"after2"}}}},
+		{Init: 2, Max: 2, Steps: []step{{Kind: "requests", Tokens: []string{"fast1"}}, {Kind: "wait", Ms: 300}, {Kind: "stall", Tokens: []string{"stall2", "stall3"}}, {Kind: "wait", Ms: 5000}, {Kind: "requests", Tokens: []string{"after4", "after5"}}}},
+	} {
+		fails, obs := runProcessScript(c)
+		for k, v := range obs.notObserved {
+			h.R.Count("not-observed: "+k, int64(v))
+		}
+		key, _ := json.Marshal(c)
+		h.R.Case(t, "process", string(key), c, []string{"stalled-uploads", fmt.Sprint("scenario-", i)}, true, fails)
 	}
 }
 
